@@ -762,6 +762,36 @@ func c09JWT(c *Ctx) {
 					return true
 				})
 			}
+			// or the scan itself is slices.ContainsFunc(aud, literal) with the host and group
+			// tests inside the literal (audienceLitOK)
+			if len(mgCalls) == 0 || len(delegated) == 0 {
+				var direct []*ast.CallExpr
+				ast.Inspect(jc.Body(), func(n ast.Node) bool {
+					if _, isLit := n.(*ast.FuncLit); isLit {
+						return false
+					}
+					call, ok := n.(*ast.CallExpr)
+					if !ok || len(call.Args) != 2 {
+						return true
+					}
+					if f := calleeOf(&CallSite{Call: call, In: jc}); f == nil || f.Pkg() == nil || f.Pkg().Path() != "slices" || f.Name() != "ContainsFunc" {
+						return true
+					}
+					lit, ok := unparen(call.Args[1]).(*ast.FuncLit)
+					if !ok {
+						return true
+					}
+					if ls := p.SrcOfLit(lit); ls != nil && audienceLitOK(p, ls, hostT, TVar(params[2]), hostCond) {
+						direct = append(direct, call)
+					}
+					return false
+				})
+				if len(direct) > 0 {
+					// the matchGroup calls inside the literal are not themselves tested at the returns of Check
+					mgCalls = nil
+					delegated = append(delegated, direct...)
+				}
+			}
 			mgCalls = append(mgCalls, delegated...)
 			okSucc, okFlag, nset = len(mgCalls) > 0, true, len(mgCalls)
 			for _, mc := range mgCalls {
@@ -1026,45 +1056,8 @@ func audienceMatcher(p *Program, src *FuncSrc, hostIdx, groupIdx int) bool {
 			return false
 		}
 		nlit++
-		lf := p.Facts().Analyze(ls)
-		isMG := func(e ast.Expr) *ast.CallExpr {
-			mc, ok := unparen(e).(*ast.CallExpr)
-			if !ok || len(mc.Args) != 3 || !fnIs(calleeOf(&CallSite{Call: mc, In: ls}), "token", "", "matchGroup") {
-				return nil
-			}
-			if t := lf.term(mc.Args[1]); t == nil || t.String() != groupT.String() {
-				return nil
-			}
-			return mc
-		}
-		for _, lr := range lf.Returns() {
-			if len(lr.Results) != 1 {
-				return false
-			}
-			e := unparen(lr.Results[0])
-			if tv := info.Types[e]; tv.Value != nil && tv.Value.String() == "false" {
-				continue
-			}
-			okRet := false
-			if mc := isMG(e); mc != nil {
-				okRet = true
-			} else if tv := info.Types[e]; tv.Value != nil && tv.Value.String() == "true" {
-				if st, _ := lf.At(lr); st != nil {
-					ast.Inspect(ls.Body(), func(m ast.Node) bool {
-						if mc := isMG2(m, isMG); mc != nil && st.HasFact(mkFact(true, "true", &Term{K: 'r', Name: "res0", Pos: mc.Lparen}, nil)) {
-							okRet = true
-						}
-						return true
-					})
-				}
-			}
-			if !okRet {
-				okAll = false
-				continue
-			}
-			if reach, _ := lf.ReachableNotRefuting(lr, hostCond); reach {
-				okAll = false
-			}
+		if !audienceLitOK(p, ls, hostT, groupT, hostCond) {
+			okAll = false
 		}
 	}
 	return okAll && nlit > 0
@@ -1075,4 +1068,55 @@ func isMG2(m ast.Node, isMG func(ast.Expr) *ast.CallExpr) *ast.CallExpr {
 		return isMG(e)
 	}
 	return nil
+}
+
+// audienceLitOK: every return of the predicate literal handed to
+// slices.ContainsFunc is false, or the matchGroup(<path>, group, ...) call
+// itself / true where that call returned true, and is unreachable while
+// host != "" and the EqualFold test failed.
+func audienceLitOK(p *Program, ls *FuncSrc, hostT, groupT *Term, hostCond func(f *Fact) bool) bool {
+	info := ls.Pkg.TypesInfo
+	lf := p.Facts().Analyze(ls)
+	isMG := func(e ast.Expr) *ast.CallExpr {
+		mc, ok := unparen(e).(*ast.CallExpr)
+		if !ok || len(mc.Args) != 3 || !fnIs(calleeOf(&CallSite{Call: mc, In: ls}), "token", "", "matchGroup") {
+			return nil
+		}
+		if t := lf.term(mc.Args[1]); t == nil || t.String() != groupT.String() {
+			return nil
+		}
+		return mc
+	}
+	okAll, nret := true, 0
+	for _, lr := range lf.Returns() {
+		if len(lr.Results) != 1 {
+			return false
+		}
+		e := unparen(lr.Results[0])
+		if tv := info.Types[e]; tv.Value != nil && tv.Value.String() == "false" {
+			continue
+		}
+		nret++
+		okRet := false
+		if mc := isMG(e); mc != nil {
+			okRet = true
+		} else if tv := info.Types[e]; tv.Value != nil && tv.Value.String() == "true" {
+			if st, _ := lf.At(lr); st != nil {
+				ast.Inspect(ls.Body(), func(m ast.Node) bool {
+					if mc := isMG2(m, isMG); mc != nil && st.HasFact(mkFact(true, "true", &Term{K: 'r', Name: "res0", Pos: mc.Lparen}, nil)) {
+						okRet = true
+					}
+					return true
+				})
+			}
+		}
+		if !okRet {
+			okAll = false
+			continue
+		}
+		if reach, _ := lf.ReachableNotRefuting(lr, hostCond); reach {
+			okAll = false
+		}
+	}
+	return okAll && nret > 0
 }
